@@ -607,6 +607,7 @@ pub fn tr_pat(cx: &mut Ctx, p: &Pat, ty: &Ty) -> R<String> {
 
 fn tr_match(cx: &mut Ctx, m: &ExprMatch, expected: Option<&Ty>) -> R<Tr> {
     let scrut = tr_expr(cx, &m.expr, None)?;
+    let pre = cx.take_prelude();
     let mut ty: Option<Ty> = expected.cloned();
     let mut arms = vec![];
     for arm in &m.arms {
@@ -625,6 +626,9 @@ fn tr_match(cx: &mut Ctx, m: &ExprMatch, expected: Option<&Ty>) -> R<Tr> {
         arms.push(format!(" | {} => {}", pat, body.val()));
     }
     let ty = ty.unwrap_or(Ty::Unit);
+    if !pre.is_empty() {
+        return Ok(Tr::new(format!("(\n{}(match {} with\n{}))", pre, scrut.val(), arms.join("\n")), ty));
+    }
     Ok(Tr::new(format!("(match {} with\n{})", scrut.val(), arms.join("\n")), ty))
 }
 
